@@ -49,6 +49,162 @@ def git_verdicts(ctx, repo, rels):
     return {r: (r in ign) for r in rels}
 
 
+# ---------------------------------------------------------------------------------------------
+# Reference semantics of Docker's and Mercurial's ignore files for the generated pattern classes,
+# written as direct recursive matchers (no regular expressions are built from the patterns), from
+# the tools' documentation: moby/patternmatcher (MatchesOrParentMatches: last matching line wins,
+# a pattern matches a path when it matches the path or one of its parent directories; patterns are
+# relative to the context root; `**/` = any number of directories incl. none; `*`, `?` stay inside
+# one path segment) and hgignore(5)/match.py (glob: unrooted, `(?:|.*/)` + pattern + `(?:/|$)`,
+# `?` = any one character, `**/` = any number of directories, patterns are normalised so `dir/` = `dir`;
+# regexp: unrooted unless it starts with `^`, no anchor at the end; `syntax:` lines switch).
+
+def glob_tokens(p):
+    toks, i = [], 0
+    while i < len(p):
+        if p.startswith("**/", i):
+            toks.append(("dirs",))
+            i += 3
+        elif p.startswith("**", i):
+            toks.append(("any",))
+            i += 2
+        elif p[i] == "*":
+            toks.append(("star",))
+            i += 1
+        elif p[i] == "?":
+            toks.append(("q",))
+            i += 1
+        else:
+            toks.append(("c", p[i]))
+            i += 1
+    return toks
+
+
+def glob_full(toks, s, q_any):
+    """Does the whole string s match the token list?"""
+    import functools
+
+    @functools.lru_cache(maxsize=None)
+    def m(i, k):
+        if i == len(toks):
+            return k == len(s)
+        t = toks[i]
+        if t[0] == "c":
+            return k < len(s) and s[k] == t[1] and m(i + 1, k + 1)
+        if t[0] == "q":
+            return k < len(s) and (q_any or s[k] != "/") and m(i + 1, k + 1)
+        if t[0] == "star":
+            j = k
+            while True:
+                if m(i + 1, j):
+                    return True
+                if j < len(s) and s[j] != "/":
+                    j += 1
+                else:
+                    return False
+        if t[0] == "any":
+            return any(m(i + 1, j) for j in range(k, len(s) + 1))
+        # dirs: zero or more whole directories, each followed by '/'
+        if m(i + 1, k):
+            return True
+        return any(s[j] == "/" and m(i + 1, j + 1) for j in range(k, len(s)))
+    return m(0, 0)
+
+
+def docker_ignored(lines, rel):
+    matched = False
+    parts = rel.split("/")
+    prefixes = ["/".join(parts[:i]) for i in range(1, len(parts) + 1)]
+    for line in lines:
+        if not line.strip() or line.startswith("#"):
+            continue
+        p = line.strip()
+        neg = p.startswith("!")
+        if neg:
+            p = p[1:].lstrip()
+        p = p.lstrip("/").rstrip("/")
+        toks = glob_tokens(p)
+        if any(glob_full(toks, x, False) for x in prefixes):
+            matched = not neg
+    return matched
+
+
+def hg_ignored(lines, rel):
+    import re
+    syntax = "regexp"
+    for line in lines:
+        if not line.strip() or line.startswith("#"):
+            continue
+        if line.startswith("syntax:"):
+            syntax = line[len("syntax:"):].strip()
+            continue
+        if syntax == "glob":
+            toks = glob_tokens(line.rstrip("/"))
+            starts = [0] + [i + 1 for i, c in enumerate(rel) if c == "/"]
+            ends = [i for i, c in enumerate(rel) if c == "/"] + [len(rel)]
+            if any(glob_full(toks, rel[a:b], True) for a in starts for b in ends if a <= b):
+                return True
+        else:
+            if re.match(line if line.startswith("^") else ".*" + line, rel):
+                return True
+    return False
+
+
+TOOLS = {
+    "docker": dict(file=".dockerignore", opt="dockerignore", alias="dock", no="nodockerignore", cfg="dockerignore"),
+    "hg": dict(file=".hgignore", opt="hgignore", alias="hg", no="nohgignore", cfg="hgignore"),
+}
+
+
+def gen_context(ctx, idx, tool):
+    """A docker build context / a Mercurial repository: base/outer/ctx with the ignore file in ctx."""
+    rng = ctx.rng
+    base = os.path.join(ctx.scratch, "%s%d" % (tool[0], idx))
+    top = os.path.join(base, "outer", "ctx")
+    os.makedirs(top)
+    names = ["a.log", "b.log", "keep.log", "x.txt", "y.txt", "README", "main.rs", "lib.rs", "out.o", "tmp1", "tmp2", "tmp10", "tmpAB", "secret.txt", "data.bin", "a+b", "build.rs", "name"]
+    dirs = ["build", "buildx", "src", "target", "docs", "src/sub", "src/sub/deep", "vendor", "docs/build", "src/name"]
+    for d in rng.sample(dirs, rng.randint(3, len(dirs))):
+        os.makedirs(os.path.join(top, d), exist_ok=True)
+    alld = [top] + [os.path.join(dp, d) for dp, ds, _ in os.walk(top) for d in ds]
+    for d in alld:
+        for n in rng.sample(names, rng.randint(1, 7)):
+            if not os.path.lexists(os.path.join(d, n)):
+                open(os.path.join(d, n), "w").close()
+    if tool == "docker":
+        pool = ["*.log", "build/", "build", "target", "/x.txt", "src/sub/secret.txt", "**/tmp1", "tmp?", "docs/*.txt", "*.o", "# a comment", "", "!keep.log", "vendor/", "/docs/build", "**/deep", "data.*",
+                "!src/lib.rs", "*.rs", "src/*.rs", "sub/", "src/**/*.bin", "tmp1", "**/name", "src/*/README", " secret.txt ", "! y.txt", "*/*.txt", "a+b", "**/*.log", "!src/sub/b.log", "tmp*"]
+        lines = [rng.choice(pool) for _ in range(rng.randint(1, 7))]
+    else:
+        os.mkdir(os.path.join(top, ".hg"))
+        gpool = ["*.log", "build/", "build", "target", "src/sub/secret.txt", "**/tmp1", "tmp?", "docs/*.txt", "*.o", "# a comment", "", "vendor/", "docs/build", "**/deep", "data.*", "*.rs", "sub/", "src/**/*.bin",
+                 "tmp1", "**/name", "a+b", "tmp*", "src/*/README", "name"]
+        rpool = [r"\.log$", "^build", "^build/", r"tmp\d$", "keep/y", r"^src/.*\.rs$", r"\.o$", "^docs/build", "sub/deep", r"^x\.txt$", "# comment", "", "README", r"^src/sub/", r"a\+b"]
+        lines = []
+        syntax = "regexp"
+        for _ in range(rng.randint(1, 7)):
+            r_ = rng.random()
+            if r_ < 0.25:
+                syntax = rng.choice(["glob", "regexp"])
+                lines.append("syntax: " + syntax)
+            else:
+                lines.append(rng.choice(gpool if syntax == "glob" else rpool))
+        if not any(l.startswith("syntax: glob") for l in lines) and rng.random() < 0.6:
+            lines = ["syntax: glob"] + [rng.choice(gpool) for _ in range(rng.randint(1, 4))] + lines
+    with open(os.path.join(top, TOOLS[tool]["file"]), "w") as f:
+        f.write("\n".join(lines) + "\n")
+    # configuration homes: this tool on / the OTHER tool on (must not switch this one on) / both
+    other = "hgignore" if tool == "docker" else "dockerignore"
+    homes = {}
+    for tag, text in (("on", "%s = true\n" % TOOLS[tool]["cfg"]), ("other", "%s = true\n%s = false\n" % (other, TOOLS[tool]["cfg"])), ("on_other_off", "%s = true\n%s = false\n" % (TOOLS[tool]["cfg"], other))):
+        h = os.path.join(base, "home_" + tag)
+        os.makedirs(os.path.join(h, ".config", "fselect"))
+        with open(os.path.join(h, ".config", "fselect", "config.toml"), "w") as f:
+            f.write(text)
+        homes[tag] = h
+    return base, top, lines, homes
+
+
 def run(ctx):
     ctx.prepare()
     ctx.check_proofs()
@@ -139,9 +295,119 @@ def run(ctx):
         st["hist"]["hidden_%s" % ("0" if nhidden == 0 else "1-5" if nhidden <= 5 else "6+")] += 1
         if len(st["samples"]) < 3 and j["active"] and 0 < nhidden and len(rows) < 14:
             st["samples"].append({"gitignore": j["pats"], "argv": [r["query"]], "cwd": os.path.relpath(j["cwd"], j["base"]) or ".", "rows": rows})
+
+    # ---- Docker and Mercurial ignore files: the tool's rules from the reference matchers above ----
+    tjobs = []
+    ntool = 10 if ctx.tier == "quick" else 200
+    skipped_reinclude = 0
+    for tool in ("docker", "hg"):
+        for i in range(ntool):
+            base, top, lines, homes = gen_context(ctx, i, tool)
+            obs_top = fstree.observe(top)
+            oracle = docker_ignored if tool == "docker" else hg_ignored
+            ign_abs = set()
+            reincluded_below_ignored = False
+            for _, _, nd in walklib.ref_listing(obs_top, top, 0, 0):
+                rel = os.path.relpath(nd["path"], top)
+                if oracle(lines, rel):
+                    ign_abs.add(nd["path"])
+            for _, _, nd in walklib.ref_listing(obs_top, top, 0, 0):
+                if nd["path"] not in ign_abs and any(nd["path"].startswith(x + "/") for x in ign_abs):
+                    if tool == "docker":
+                        reincluded_below_ignored = True     # Docker would keep it; fselect prunes the directory: recorded finding, outside the generated domain
+            if reincluded_below_ignored:
+                skipped_reinclude += 1
+                continue
+            sub = [d for d in ("src", "docs", "src/sub") if os.path.isdir(os.path.join(top, d)) and os.path.join(top, d) not in ign_abs
+                   and not any(os.path.join(top, d).startswith(x + "/") for x in ign_abs)]
+            outer = os.path.dirname(top)
+            spellings = [(".", top, top), ("ctx", outer, top), (top, base, top), ("./ctx", outer, top), ("outer/ctx", base, top)]
+            for d in sub[:2]:
+                spellings.append((d, top, os.path.join(top, d)))             # the ignore file sits in an ancestor of the root
+                spellings.append((os.path.join(top, d), base, os.path.join(top, d)))
+                spellings.append((".", os.path.join(top, d), os.path.join(top, d)))
+            for sp, cwd, rootabs in rng.sample(spellings, min(len(spellings), 5)):
+                mode = rng.choice(["option", "option", "alias", "config", "config", "config_no", "none", "option_dfs", "config_other", "config_on_other_off", "other_option"])
+                tjobs.append(dict(tool=tool, base=base, repo=top, pats=lines, sp=sp, cwd=cwd, rootabs=rootabs, mode=mode, ign=ign_abs, homes=homes))
+
+    def tone(j):
+        T = TOOLS[j["tool"]]
+        home, opt = None, ""
+        if j["mode"] in ("option", "option_dfs"):
+            opt = " " + T["opt"] + (" dfs" if j["mode"] == "option_dfs" else "")
+        elif j["mode"] == "alias":
+            opt = " " + T["alias"]
+        elif j["mode"] in ("config", "config_no"):
+            home = j["homes"]["on"]
+            if j["mode"] == "config_no":
+                opt = " " + T["no"]
+        elif j["mode"] == "config_other":
+            home = j["homes"]["other"]
+        elif j["mode"] == "config_on_other_off":
+            home = j["homes"]["on_other_off"]
+        elif j["mode"] == "other_option":
+            opt = " " + TOOLS["hg" if j["tool"] == "docker" else "docker"]["opt"]        # the other tool's option: its file does not exist here
+        q = "path from %s%s into list" % (j["sp"], opt)
+        env = {"HOME": home, "XDG_CONFIG_HOME": os.path.join(home, ".config")} if home else None
+        r = ctx.impl.rows([q], cwd=j["cwd"], env=env)
+        r["query"] = q
+        return r
+
+    tres = pmap(tone, tjobs)
+    texprs = []
+    for j in tjobs:
+        j["active"] = j["mode"] in ("option", "option_dfs", "alias", "config", "config_on_other_off")
+        j["obs"] = fstree.observe(j["rootabs"])
+        texprs.append(walklib.walk_expr([(walklib.opts_term(0, 0, j["mode"] == "option_dfs", ign=j["active"]), j["sp"], os.path.realpath(j["rootabs"]),
+                                          walklib.node_term(j["obs"], ign=j["ign"]), fstree.count(j["obs"]) + 1)]))
+    tmodel = [walklib.parse_walk(x) for x in coq_eval(walklib.COQ_HEADER, texprs, ctx.scratch, tag="c20t", shard=8)]
+    for j, r, m in zip(tjobs, tres, tmodel):
+        st["evaluations"] += 1
+        rows = [v.decode("utf-8", "surrogateescape") for v in r["values"]]
+        case = {"tool": j["tool"], "context": j["repo"], TOOLS[j["tool"]]["file"]: j["pats"], "cwd": j["cwd"], "argv": [r["query"]], "mode": j["mode"],
+                "ignored_by_reference": sorted(os.path.relpath(x, j["repo"]) for x in j["ign"])[:30]}
+        if r["status"] != 0 or r["stderr"]:
+            ctx.violation("impl-violates-spec", "status %s stderr %r" % (r["status"], r["stderr"][:200]), input=case)
+            continue
+        ref = walklib.ref_listing(j["obs"], j["sp"], 0, 0)
+        exp = [p_ for _, p_, nd in ref if not (j["active"] and any(nd["path"] == x or nd["path"].startswith(x + "/") for x in j["ign"]))]
+        if sorted(rows) != sorted(exp):
+            ctx.violation("impl-violates-spec", "%s: rows differ from the entries the tool's rules do not ignore (option %s)" % (j["tool"], "active" if j["active"] else "inactive"), input=case,
+                          missing=sorted(set(exp) - set(rows))[:10], extra=sorted(set(rows) - set(exp))[:10])
+            continue
+        mrows = [p_ for p_, _ in m["rows"]]
+        if not m["ok"] or mrows != rows:
+            ctx.violation("correspondence-mismatch", "row sequence differs from model.Walk with ignore flags", input=case, observed=rows[:30], model=mrows[:30], concrete=False,
+                          correspondence="binary %s vs model.Walk.walk_roots (o_ign, verdicts from the reference matcher)" % TOOLS[j["tool"]]["opt"])
+            continue
+        st["agreed"] += 1
+        nhidden = len(ref) - len(exp)
+        if j["active"] and nhidden:
+            st["distinct"].add(r["query"] + j["repo"])
+        st["hist"]["%s_mode_%s" % (j["tool"], j["mode"])] += 1
+        st["hist"]["%s_hidden_%s" % (j["tool"], "0" if nhidden == 0 else "1-5" if nhidden <= 5 else "6+")] += 1
+        if len([s_ for s_ in st["samples"] if s_.get("tool") == j["tool"]]) < 1 and j["active"] and 0 < nhidden and len(rows) < 16:
+            st["samples"].append({"tool": j["tool"], "ignore_file": j["pats"], "argv": [r["query"]], "rows": rows})
+    st["hist"]["docker_contexts_skipped_reinclude_below_ignored_dir"] = skipped_reinclude
+    # recorded finding F53: replay the witness
+    from .common import load_known
+    for k in load_known():
+        if k["property"] == "C20" and k["status"] == "known" and k["id"] == "F53":
+            d53 = os.path.join(ctx.scratch, "f53", "d")
+            os.makedirs(os.path.join(d53, "sub"))
+            for f_ in ("sub/keep.txt", "sub/other.txt", "top.txt"):
+                open(os.path.join(d53, f_), "w").close()
+            with open(os.path.join(d53, ".dockerignore"), "w") as f:
+                f.write("\n".join(k["witness"][".dockerignore"]) + "\n")
+            r53 = ctx.impl.rows(["path from d dockerignore into list"], cwd=os.path.dirname(d53))
+            got53 = sorted(v.decode() for v in r53["values"])
+            if "d/sub/keep.txt" not in got53 and "d/top.txt" in got53 and "d/sub" not in got53:
+                ctx.known_lines.append("KNOWN-FINDING: property=C20 F53 %s" % k["what"])
+            else:
+                ctx.notes.append("F53: witness no longer fails (rows %s); update KNOWN_FINDINGS.json" % got53)
     ctx.coverage.update(
         evaluations=st["evaluations"], distinct_nontrivial=len(st["distinct"]), traces_validated_against_impl=st["agreed"],
-        rule="git repositories (git init) with .gitignore files (root and nested) built from literal names, *.ext, dir/, dir/*.ext, **/name, ? patterns, rooted patterns, comments, blank lines and !negations x root spelled '.', relative (from the parent and from inside the repository), './x', absolute, sub-directory of the repository x option `gitignore` / alias `git` / configuration default / `nogitignore` override / no option x bfs/dfs: rows must be exactly the entries whose ancestors-or-self are not ignored according to `git check-ignore`, and equal model.Walk fed those verdicts. non-trivial = an active option hiding at least one entry",
+        rule="docker build contexts and Mercurial repositories (.hg) with ignore files from the same pattern classes (plus `syntax: glob|regexp` sections and unrooted / rooted regular expressions for hg), the ignore file in the root or in an ancestor of it, x option / alias / configuration default / `no...` override / no option / ONLY THE OTHER tool enabled (by configuration or option): rows = entries no ancestor-or-self of which the reference matcher (moby patternmatcher / hgignore(5) semantics, written as a direct recursive matcher) ignores; git repositories (git init) with .gitignore files (root and nested) built from literal names, *.ext, dir/, dir/*.ext, **/name, ? patterns, rooted patterns, comments, blank lines and !negations x root spelled '.', relative (from the parent and from inside the repository), './x', absolute, sub-directory of the repository x option `gitignore` / alias `git` / configuration default / `nogitignore` override / no option x bfs/dfs: rows must be exactly the entries whose ancestors-or-self are not ignored according to `git check-ignore`, and equal model.Walk fed those verdicts. non-trivial = an active option hiding at least one entry",
         samples=st["samples"], distribution=dict(st["hist"]),
-        not_covered="hgignore / dockerignore conversion rules are not compared with Mercurial's / Docker's reference semantics in this round (see DESIGN.md: known deviations F37, F38, F41)")
+        not_covered="Docker re-includes an entry below an excluded directory (`dir` + `!dir/keep`); fselect prunes excluded directories (as git does), such contexts are skipped and counted; hg `subinclude:`, `rootglob:`, per-line `glob:`/`re:` prefixes, character classes and `{a,b}` are outside the generated classes")
     return ctx.finish(trusted=["libgit2's matching is not modelled: per-entry verdicts come from `git check-ignore --no-index`; `.git` itself is treated as ignored (libgit2 behaviour)"])
